@@ -1,6 +1,6 @@
 (* Props_C01.v — C01: membership knowledge is a join-semilattice.
    Statements only; every proof is `exact <lemma>`. *)
-From Foca Require Import Laws MembersM L_Members L_Join Concrete ConcreteLaws.
+From Foca Require Import Laws MembersM FocaM L_Members L_Join Concrete ConcreteLaws L_Evidence L_Monotone.
 
 Section C01.
 Context {Id Addr : Type} {IO : IdOps Id Addr} {IL : IdLaws IO}.
@@ -46,6 +46,38 @@ Proof. exact (exchange_agree rnd1 rnd2 x y n1 n2). Qed.
 
 End C01.
 
+(* ALONG EVERY CALL of the instance (not only apply_many): datagrams - the wire route -, timers, every
+   API call, any oracle.  Except for the forget-timer, one record per address is kept and no record
+   moves backward in the precedence order: the record afterwards is at least the record before (same
+   identity with a key at least as high, or an identity that wins the address).  Over any history
+   without forget-timers likewise. *)
+Section C01_calls.
+Context {Id Addr : Type} {IO : IdOps Id Addr} {CO : CodecOps Id} {HO : HandlerOps Id} {IL : IdLaws IO}.
+
+Theorem C01_grew_meaning (ms ms' : @members Id) :
+  grew ms ms' <-> forall a k, view ms a = Some k -> exists k', view ms' a = Some k' /\ mle k k'.
+Proof. reflexivity. Qed.
+
+Theorem C01_knowledge_monotone_along_every_call (rnd : oracle) (f : @foca Id Addr HO) (i : @input Id) :
+  match i with ITimer (TRemoveDown _) => False | _ => True end ->
+  uniq (inner (mems f)) ->
+  let f' := fst (fst (fst (step rnd f i))) in
+  uniq (inner (mems f')) /\ grew (mems f) (mems f').
+Proof. exact (step_knowledge_monotone rnd f i). Qed.
+
+Theorem C01_knowledge_monotone_along_histories (rnd : oracle) (l : list (@input Id)) (f : @foca Id Addr HO) :
+  no_forget l -> uniq (inner (mems f)) ->
+  uniq (inner (mems (run_calls rnd f l))) /\ grew (mems f) (mems (run_calls rnd f l)).
+Proof. exact (history_knowledge_monotone rnd l f). Qed.
+
+Theorem C01_no_forget_meaning (i : @input Id) (l : list (@input Id)) :
+  (@no_forget Id [] <-> True)
+  /\ (no_forget (i :: l) <-> match i with ITimer (TRemoveDown _) => False | _ => no_forget l end).
+Proof. split; reflexivity. Qed.
+
+End C01_calls.
+
+
 (* non-vacuity: the hypotheses hold for the executable identities, and a concrete
    three-generation conflict behaves as stated *)
 Example C01_concrete_instance : IdLaws cid_ops.
@@ -68,3 +100,7 @@ Print Assumptions C01_reapply_own_state.
 Print Assumptions C01_exchange.
 Print Assumptions C01_concrete_instance.
 Print Assumptions C01_example_conflict.
+Print Assumptions C01_grew_meaning.
+Print Assumptions C01_knowledge_monotone_along_every_call.
+Print Assumptions C01_knowledge_monotone_along_histories.
+Print Assumptions C01_no_forget_meaning.
